@@ -100,21 +100,37 @@ def standard_flow(C, tier, replay=None):
     isbad = C.get("bad_trace", lambda t: any(isinstance(e, dict) and e.get("op") == "machinery" for e in t["events"]))
     badtl = [t for t in tl if isbad(t)]
     tl = [t for t in tl if not isbad(t)]
-    v = vlib.validate(tmod, tcfg, tl, prop, env=venv, timeout=C.get("validate_timeout", 1500))
+    # one acceptor per check, or several: C["trace_of"](plan) -> (module, cfg, env) (default C["trace"], C["validate_env"])
+    trace_of = C.get("trace_of") or (lambda p: (tmod, tcfg, venv))
+    groups_v = {}
+    for t in tl:
+        m_, c_, e_ = trace_of(byid[t["plan"]])
+        groups_v.setdefault((m_, c_, json.dumps(e_ or {}, sort_keys=True)), []).append(t)
+    v = {"accepted": set(), "rejected": {}, "states": 0, "wall": 0.0, "kf": {}}
     violations, known = [], []
-    rejected = dict(v["rejected"])
     kfs = vlib.known_findings(prop)
-    if rejected and kfs:
-        names = sorted({k["id"] for k in kfs})
-        kf_env = C.get("kf_env", lambda ns: {"KF_" + n: "1" for n in ns})
-        rtl = [t for t in tl if t["plan"] in rejected]
-        v2 = vlib.validate(tmod, tcfg, rtl, prop + "-kf", env=dict(venv, **kf_env(names)), timeout=C.get("validate_timeout", 1500))
-        for pid in list(rejected):
-            if pid in v2["accepted"]:
-                used = v2["kf"].get(pid, [])
-                if used:
-                    known.append((pid, used))
-                    del rejected[pid]
+    for (m_, c_, ej), ts_ in groups_v.items():
+        e_ = json.loads(ej)
+        v1 = vlib.validate(m_, c_, ts_, prop, env=e_, timeout=C.get("validate_timeout", 1500))
+        v["accepted"] |= v1["accepted"]
+        v["states"] += v1["states"]
+        rej = dict(v1["rejected"])
+        v["rejected"].update(rej)
+        if rej and kfs:
+            names = sorted({k["id"] for k in kfs})
+            kf_env = C.get("kf_env", lambda ns: {"KF_" + n: "1" for n in ns})
+            rtl = [t for t in ts_ if t["plan"] in rej]
+            v2 = vlib.validate(m_, c_, rtl, prop + "-kf", env=dict(e_, **kf_env(names)), timeout=C.get("validate_timeout", 1500))
+            for pid in list(rej):
+                if pid in v2["accepted"]:
+                    used = v2["kf"].get(pid, [])
+                    if used:
+                        known.append((pid, used))
+                        del rej[pid]
+        groups_v[(m_, c_, ej)] = rej
+    rejected = {}
+    for rej in groups_v.values():
+        rejected.update(rej)
     for pid, info in rejected.items():
         path = vlib.save_replay(prop, "rejected", {"property": prop, "plan": byid[pid], "trace": traces[pid],
                                                    "rejected_at": info})
